@@ -102,6 +102,8 @@ FINDINGS = [
     ),
 ]
 FIXED = [
+    "fixed: property=C01 7e7c349 NumPy style: a type wider than the wrap width was wrapped on its 'name : type' line; read back its second half was a parameter of its own and the description was lost",
+    'fixed: property=C01 e628782 NumPy style: a return description longer than one line (wrapped by the emitter) came back cut after its first line',
     "fixed: property=C01 1666a8a NumPy style, word wrap: a description whose length put the wrap point between 'Defaults' and 'to' (or inside a quoted default with a space) lost or changed its default when read back, or the parser raised (found by the wrap-boundary length sweep and by DOCTRANS_LINE_LENGTH=40)",
     'fixed: property=C01 f4150fc Google style: continuation lines of a multi-line description were emitted at column 0; read back they ended the Args section (description truncated, rest appended to the header, later defaults lost)',
     "fixed: property=C01 fc46805 a quoted string default containing a full stop ('a.b') was cut at the dot when read back from the prose, or the parser raised SyntaxError",
